@@ -1,7 +1,161 @@
 import Driver.Proto
-/- driver commands of area `intro` (stub until the area is built) -/
-namespace Driver.Intro
+import MesonModel.Intro.Model
+/-
+driver commands of area `intro` (C15)
 
-def handle (cmd : String) (fs : List String) : String := "bad-op"
+Encoding: fields `|`, records `/`, record components `;`, sub-records `&`, sub-components `:`, list items `,`;
+a string is `s` followed by its code points (`s 97 98`; the empty string is `s`), so that the empty list (empty
+text) and the list holding one empty string differ.
+
+  targets <targets>|<edges>             target = id;kind;files;priv;srcs   kind = b|c|p|o     edge = rule;outs;ins
+        -> OK|<agree>|<ff,ff,…>|<claimed>        per target: files-exact bit, sources-exact bit
+  tests <intro>|<ser>|<target ids>      intro = name;cmd;k:v&k:v;workdir;timeout;suite;par;prio;proto;depends;extra
+                                        ser   = name;fname;args;m:name:vals:sep&…;workdir;timeout;suite;par;prio;proto;depends;extra
+        -> OK|<agree>|<n intro>,<n ser>|<bit per position>|<depends-known>
+  install <dirs>|<prefix>|<plan>|<installed>|<plan recs>|<installed recs>
+                                        dirs = k:v&…   plan = sect;path;dest;tag;sub   installed = key;value
+                                        rec = kind;datatype;path;installpath;tag;sub   kind = t|d|h|m|s|l
+        -> OK|<agree>|<recs named>|<entries backed>|<recs listed>|<entries backed>      (bit strings)
+  options <rows>|<observed>             row = name;value     observed = sub;name;builtin;value
+        -> OK|<agree>|<bit per observation>
+  files <listed>|<read>                 -> OK|<agree>
+  getenv <ops>                          -> OK|k:v&k:v
+  expand <dirs>|<prefix>|<dest>         -> OK|<path>  /  NONE
+  destused <prefix>|<rec>               -> OK|<path>
+-/
+namespace Driver.Intro
+open MesonModel.Intro Driver
+
+def recs (f : String) : List String := if f.isEmpty then [] else f.splitOn "/"
+def subs (f : String) : List String := if f.isEmpty then [] else f.splitOn "&"
+def comps (r : String) : List String := r.splitOn ";"
+def bits (l : List Bool) : String := String.join (l.map boolStr)
+
+def decKind : String → TKind
+  | "b" => .build | "c" => .custom | "p" => .phony | _ => .other
+
+def decTarget (r : String) : Option Target :=
+  match comps r with
+  | [i, k, f, p, s] => some { id := decodeStr i, kind := decKind k, files := decodeStrList f, priv := decodeStr p, srcs := decodeStrList s }
+  | _ => none
+
+def decEdge (r : String) : Option Edge :=
+  match comps r with
+  | [ru, o, i] => some { rule := decodeStr ru, outs := decodeStrList o, ins := decodeStrList i }
+  | _ => none
+
+def decPair (r : String) : Option (Str × Str) :=
+  match r.splitOn ":" with
+  | [k, v] => some (decodeStr k, decodeStr v)
+  | _ => none
+
+def decOp (r : String) : Option EnvOp :=
+  match r.splitOn ":" with
+  | [m, n, v, s] =>
+    let meth := match m with | "set" => some EnvMethod.set | "append" => some .append | "prepend" => some .prepend | _ => none
+    meth.map (fun mm => { method := mm, name := decodeStr n, values := decodeStrList v, sep := decodeStr s })
+  | _ => none
+
+def decIntroTest (r : String) : Option IntroTest :=
+  match comps r with
+  | [n, c, e, w, t, su, pa, pr, po, d, x] =>
+    (subs e).mapM decPair |>.map (fun env =>
+      { name := decodeStr n, cmd := decodeStrList c, env := env, workdir := decodeStr w, timeout := decodeStr t,
+        suite := decodeStrList su, isParallel := decodeStr pa, priority := decodeStr pr, protocol := decodeStr po,
+        depends := decodeStrList d, extraPaths := decodeStrList x })
+  | _ => none
+
+def decSerTest (r : String) : Option SerTest :=
+  match comps r with
+  | [n, f, a, e, w, t, su, pa, pr, po, d, x] =>
+    (subs e).mapM decOp |>.map (fun env =>
+      { name := decodeStr n, fname := decodeStrList f, cmdArgs := decodeStrList a, env := env, workdir := decodeStr w,
+        timeout := decodeStr t, suite := decodeStrList su, isParallel := decodeStr pa, priority := decodeStr pr,
+        protocol := decodeStr po, depends := decodeStrList d, extraPaths := decodeStrList x })
+  | _ => none
+
+def decIKind : String → Option IKind
+  | "t" => some .targets | "d" => some .data | "h" => some .headers | "m" => some .man | "s" => some .subdirs
+  | "l" => some .symlinks | _ => none
+
+def decRec (r : String) : Option InstRec :=
+  match comps r with
+  | [k, dt, p, ip, t, s] =>
+    (decIKind k).map (fun kk => { kind := kk, dataType := decodeStr dt, path := decodeStr p, installPath := decodeStr ip,
+                                  tag := decodeStr t, subproject := decodeStr s })
+  | _ => none
+
+def decPlan (r : String) : Option PlanEntry :=
+  match comps r with
+  | [se, p, d, t, s] => some { sect := decodeStr se, path := decodeStr p, dest := decodeStr d, tag := decodeStr t, subproject := decodeStr s }
+  | _ => none
+
+def decKV (r : String) : Option (Str × Str) :=
+  match comps r with
+  | [k, v] => some (decodeStr k, decodeStr v)
+  | _ => none
+
+def decRow (r : String) : Option OptRow :=
+  match comps r with
+  | [n, v] => some { name := decodeStr n, value := decodeStr v }
+  | _ => none
+
+def decObs (r : String) : Option Observed :=
+  match comps r with
+  | [s, n, b, v] => some { sub := decodeStr s, name := decodeStr n, builtin := b == "1", value := decodeStr v }
+  | _ => none
+
+def zipBits : List IntroTest → List SerTest → List Bool
+  | i :: is, s :: ss => checkTest i s :: zipBits is ss
+  | _, _ => []
+
+def encS (s : Str) : String := if s.isEmpty then "s" else "s " ++ encodeStr s
+
+def handle (cmd : String) (fs : List String) : String :=
+  match cmd, fs with
+  | "targets", [t, e] =>
+    match (recs t).mapM decTarget, (recs e).mapM decEdge with
+    | some ts, some es =>
+      let per := ts.map (fun t => boolStr (checkFiles t es) ++ boolStr (checkSources t es))
+      s!"OK|{boolStr (checkTargets ts es)}|{",".intercalate per}|{boolStr (checkClaimed ts es)}"
+    | _, _ => "bad-op"
+  | "tests", [i, s, ids] =>
+    match (recs i).mapM decIntroTest, (recs s).mapM decSerTest with
+    | some is, some ss =>
+      let tids := decodeStrList ids
+      let depsOk := is.all (fun i => i.depends.all (fun d => decide (d ∈ tids)))
+      s!"OK|{boolStr (checkTests is ss tids)}|{is.length},{ss.length}|{bits (zipBits is ss)}|{boolStr depsOk}"
+    | _, _ => "bad-op"
+  | "install", [d, pfx, pl, ins, pr, ir] =>
+    match (subs d).mapM decPair, (recs pl).mapM decPlan, (recs ins).mapM decKV, (recs pr).mapM decRec, (recs ir).mapM decRec with
+    | some dirs, some plan, some inst, some prs, some irs =>
+      let p := decodeStr pfx
+      let b1 := prs.map (fun r => plan.any (fun e => decide (Matches dirs p e r)))
+      let b2 := plan.map (fun e => prs.any (fun r => decide (Matches dirs p e r)))
+      let b3 := irs.map (fun r => inst.any (fun kv => decide (InstalledMatches p kv r)))
+      let b4 := inst.map (fun kv => irs.any (fun r => decide (InstalledMatches p kv r)))
+      s!"OK|{boolStr (checkInstall dirs p plan inst prs irs)}|{bits b1}|{bits b2}|{bits b3}|{bits b4}"
+    | _, _, _, _, _ => "bad-op"
+  | "options", [r, o] =>
+    match (recs r).mapM decRow, (recs o).mapM decObs with
+    | some rows, some obs => s!"OK|{boolStr (checkOptions rows obs)}|{bits (obs.map (checkOption rows))}"
+    | _, _ => "bad-op"
+  | "files", [a, b] => s!"OK|{boolStr (checkBuildFiles (decodeStrList a) (decodeStrList b))}"
+  | "getenv", [o] =>
+    match (subs o).mapM decOp with
+    | some ops => "OK|" ++ "&".intercalate ((getEnv ops []).map (fun kv => encS kv.1 ++ ":" ++ encS kv.2))
+    | none => "bad-op"
+  | "expand", [d, pfx, x] =>
+    match (subs d).mapM decPair with
+    | some dirs =>
+      match expandDest dirs (decodeStr pfx) (decodeStr x) with
+      | some r => "OK|" ++ encS (normDest r)
+      | none => "NONE"
+    | none => "bad-op"
+  | "destused", [pfx, r] =>
+    match decRec r with
+    | some rr => "OK|" ++ encS (normDest (destUsed (decodeStr pfx) rr))
+    | none => "bad-op"
+  | _, _ => "bad-op"
 
 end Driver.Intro
